@@ -235,6 +235,12 @@ def run(P, R, tier, cfg):
                 R.violate("c", "unrecorded-mutator:%s" % m,
                           "Facts::%s writes the fact map without recording undo information and is reachable from a backward query" % fn.short_name,
                           fn, path=" -> ".join(chain or []))
+        elif recs and not ok:
+            # takes part in the undo protocol, but not on every write path (`set_nested`'s fast path for a dot-less key): inside a
+            # frame that write is not undone by rollback - the fact-store half of the property, whoever the caller is
+            bad_w = [w for w in wsite if not any(fn.dominates(r.bb, w.bb) and r.bb != w.bb for r in recs)]
+            R.violate("c", "unrecorded-write-path:%s" % m,
+                      "Facts::%s records undo information on some paths only: the write lock taken at line %d is not preceded by record_undo_for_key, so a key written there inside an undo frame keeps its new value after rollback" % (fn.short_name, bad_w[0].line if bad_w else 0), fn, bad_w[0].line if bad_w else None)
         else:
             R.note("Facts::%s writes data without/with undo=%s; not reachable from a query" % (fn.short_name, ok))
 
